@@ -199,6 +199,7 @@ func H_C10_gap() {
 // 1: local Logout(), then inbound Logout -> nothing transmitted by the second step, logout event once
 // 2: Stop(), then inbound Logout -> context cancelled by the answer (deadline timer not fired)
 // 3: Stop(), no answer, deadline fires -> context cancelled
+// 4: Stop() whose Logout is refused by an application outgoing handler, deadline fires -> context cancelled
 func H_C15_logout() {
 	role, sc := zz.Param(0), zz.Param(1)
 	zz.Class("scenario=" + strconv.Itoa(sc) + "/role=" + strconv.Itoa(role))
@@ -262,6 +263,23 @@ func H_C15_logout() {
 		zz.Assert(len(out) == 0, "C15: a second Logout is sent when the peer's answer arrives")
 		zz.Assert(f.events[utils.EventLogout] == 1, "C15: the logout event is not raised exactly once")
 		zz.Assert(!f.s.IsLogged(), "C15: logged on after the logout handshake")
+	case 4:
+		// Stop() while an application outgoing handler refuses the Logout (it is not transmitted,
+		// C19): the session must still end at the latest when the close timeout elapses
+		f.h.HandleOutgoing("5", func(simplefixgo.SendingMessage) bool { return false })
+		n0 := zz.AfterFuncs()
+		_ = f.s.Stop()
+		o1 := f.h.VerifOut()
+		zz.Assert(len(o1) == 0, "C19: a refused Logout is transmitted")
+		zz.Reach("stopped")
+		if zz.Symbolic() {
+			zz.Assert(zz.AfterFuncs() == n0+1, "C15: Stop() does not arm the close-timeout timer when its Logout could not be sent")
+		}
+		if !cancelled() {
+			zz.Assume(zz.AfterFuncs() == n0+1)
+			zz.AfterFuncFire(n0)
+		}
+		zz.Assert(cancelled(), "C15: the session context is not cancelled when the close timeout elapses after a Logout that could not be sent")
 	case 2, 3:
 		n0 := zz.AfterFuncs()
 		zz.Assert(f.s.Stop() == nil, "C15: Stop() failed")
